@@ -25,7 +25,8 @@ Inductive pyval :=
 | PCls (c : cid) (k : string * rkind)            (* a frame class: its CID and how it decodes *)
 | PFactory                                       (* the FrameFactory singleton *)
 | PUbxParser (p : parser)                        (* a UbxParser object held in a local (scan()) *)
-| PNmeaParser (n : nparser).                     (* a NmeaParser object held in a local (scan()) *)
+| PNmeaParser (n : nparser)                      (* a NmeaParser object held in a local (scan()) *)
+| PObj (attrs : list (string * pyval)).          (* a plain object: its attributes (CfgKeyData) *)
 
 Definition cidZ (c : cid) : Z * Z := (Z.of_N (fst c), Z.of_N (snd c)).
 Definition cidN (c : Z * Z) : cid := (Z.to_N (fst c), Z.to_N (snd c)).
@@ -42,7 +43,7 @@ Definition truthy (v : pyval) : bool :=
   | PStr s => negb (String.eqb s "")
   | PBytes b => negb (is_nil b)
   | PList l | PTuple l => negb (is_nil l)
-  | PCid _ | PFrame _ | PReq _ _ | PCls _ _ | PFactory | PUbxParser _ | PNmeaParser _ => true
+  | PCid _ | PFrame _ | PReq _ _ | PCls _ _ | PFactory | PUbxParser _ | PNmeaParser _ | PObj _ => true
   end.
 
 (* == on the kinds the code compares: None, bool, int, str, bytes, UbxCID (its __eq__ compares cls and id) *)
@@ -61,7 +62,8 @@ Definition py_is_none (a : pyval) : bool := match a with PNone => true | _ => fa
 
 Definition py_lt (a b : pyval) : bool := match a, b with PInt x, PInt y => (x <? y)%Z | _, _ => false end.
 Definition py_le (a b : pyval) : bool := match a, b with PInt x, PInt y => (x <=? y)%Z | _, _ => false end.
-Definition py_add (a b : pyval) : pyval := match a, b with PInt x, PInt y => PInt (x + y) | _, _ => PNone end.
+Definition py_add (a b : pyval) : pyval :=
+  match a, b with PInt x, PInt y => PInt (x + y) | PBytes x, PBytes y => PBytes (x ++ y) | _, _ => PNone end.
 Definition py_sub (a b : pyval) : pyval := match a, b with PInt x, PInt y => PInt (x - y) | _, _ => PNone end.
 (* `<milliseconds> / 1000.0`: seconds; times are kept in milliseconds, so the number stays *)
 Definition py_ms_to_s (a : pyval) : pyval := match a with PInt x => PInt x | _ => PNone end.
@@ -93,6 +95,62 @@ Definition py_is_frame (v : pyval) : bool := match v with PReq _ _ | PFrame _ =>
 Definition py_is_cid (v : pyval) : bool := match v with PCid _ => true | _ => false end.
 Definition py_is_list (v : pyval) : bool := match v with PList _ => true | _ => false end.
 
+(* ---- plain objects, byte strings, struct (cfgkeys.py) ---------------------------------------------- *)
+Fixpoint attr_get (l : list (string * pyval)) (name : string) : pyval :=
+  match l with [] => PNone | (k, v) :: t => if String.eqb k name then v else attr_get t name end.
+Fixpoint attr_set (l : list (string * pyval)) (name : string) (v : pyval) : list (string * pyval) :=
+  match l with
+  | [] => [(name, v)]
+  | (k, x) :: t => if String.eqb k name then (k, v) :: t else (k, x) :: attr_set t name v
+  end.
+Definition py_getattr (o : pyval) (name : string) : pyval := match o with PObj l => attr_get l name | _ => PNone end.
+Definition py_setattr (o : pyval) (name : string) (v : pyval) : pyval :=
+  match o with PObj l => PObj (attr_set l name v) | x => x end.
+Definition py_len (a : pyval) : pyval := match a with PBytes b => PInt (Z.of_nat (length b)) | _ => PNone end.
+Definition py_slice_to (a n : pyval) : pyval := match a, n with PBytes b, PInt z => PBytes (firstn (Z.to_nat z) b) | _, _ => PNone end.
+Definition py_slice_from (a n : pyval) : pyval := match a, n with PBytes b, PInt z => PBytes (skipn (Z.to_nat z) b) | _, _ => PNone end.
+Definition py_index (a : pyval) (k : nat) : pyval := match a with PTuple l | PList l => nth k l PNone | _ => PNone end.
+Definition py_and (a b : pyval) : pyval := match a, b with PInt x, PInt y => PInt (Z.land x y) | _, _ => PNone end.
+
+(* struct.pack / struct.unpack for the one-value little-endian formats *)
+Definition fmt_of (s : string) : option (bool * nat) :=
+  if String.eqb s "<B" then Some (false, 1%nat) else if String.eqb s "<b" then Some (true, 1%nat)
+  else if String.eqb s "<H" then Some (false, 2%nat) else if String.eqb s "<h" then Some (true, 2%nat)
+  else if String.eqb s "<I" then Some (false, 4%nat) else if String.eqb s "<i" then Some (true, 4%nat)
+  else if String.eqb s "<Q" then Some (false, 8%nat) else if String.eqb s "<q" then Some (true, 8%nat)
+  else None.
+Definition py_struct_pack (fmt : string) (v : pyval) : res pyval :=
+  match fmt_of fmt with
+  | None => Raise StructError
+  | Some (sg, w) =>
+      match v with
+      | PInt z => match pack_int sg w (Fields.VInt z) with Ok b => Ok (PBytes b) | Raise e => Raise e end
+      | PBool b => match pack_int sg w (Fields.VInt (if b then 1 else 0)) with Ok b => Ok (PBytes b) | Raise e => Raise e end
+      | _ => Raise StructError
+      end
+  end.
+Definition py_struct_unpack (fmt : string) (data : pyval) : res pyval :=
+  match fmt_of fmt, data with
+  | Some (sg, w), PBytes b => match unpack_int sg w b with Ok z => Ok (PTuple [PInt z]) | Raise e => Raise e end
+  | _, _ => Raise StructError
+  end.
+
+(* the static helpers of CfgKeyData and the key database (their own Tie B: BridgeCfgKeys.v, reflected tables) *)
+Definition py_build_header (g i b : pyval) : res pyval :=
+  match g, i, b with
+  | PInt g, PInt i, PInt b => match build_header g i b with Ok h => Ok (PInt (Z.of_N h)) | Raise e => Raise e end
+  | _, _, _ => Raise TypeError
+  end.
+Definition py_bits_from_key (k : pyval) : res pyval := match k with PInt z => Ok (PInt (bits_from_key (Z.to_N z))) | _ => Raise TypeError end.
+Definition py_group_from_key (k : pyval) : res pyval := match k with PInt z => Ok (PInt (group_from_key (Z.to_N z))) | _ => Raise TypeError end.
+Definition py_item_from_key (k : pyval) : res pyval := match k with PInt z => Ok (PInt (item_from_key (Z.to_N z))) | _ => Raise TypeError end.
+Definition py_bytes_for_size (b : pyval) : res pyval :=
+  match b with
+  | PInt z => match bytes_from_bits z with Some w => Ok (PInt (Z.of_nat w)) | None => Raise ValueError end
+  | _ => Raise ValueError
+  end.
+Definition py_key_sign (sk : list N) (k : pyval) : res pyval := match k with PInt z => Ok (PBool (sign_of sk (Z.to_N z))) | _ => Raise TypeError end.
+
 (* local parser objects of scan(): UbxParser(None) has no filter; obj.process(data) updates the object *)
 Definition py_new_ubx_parser (crc_cid : pyval) : pyval := PUbxParser (fresh None).
 Definition py_new_nmea_parser : pyval := PNmeaParser nfresh.
@@ -115,6 +173,8 @@ Notation W := (world E).
 
 (* result of a function call *)
 Inductive fres := FRet (v : pyval) (w : W) | FRaise (e : exn) (w : W) | FFuel (w : W).
+
+Definition res_call (r : res pyval) (w : W) : fres := match r with Ok v => FRet v w | Raise e => FRaise e w end.
 
 Section Stmt.
 Context {L : Type}.
